@@ -422,6 +422,72 @@ fn adversarial(thorough: bool) -> Vec<Value> {
             }
         }
     }
+    // --- the CloudFormation-aware console reporter on every resource shape: Type present / absent / not a string, a resource that is
+    //     not a map, Metadata of odd shapes, resource names containing '/', failures at every depth below /Resources
+    {
+        let resources = [
+            "{\"Type\":\"T\",\"Properties\":{\"X\":2,\"D\":{\"E\":{\"F\":2}}}}",
+            "{\"Properties\":{\"X\":2,\"D\":{\"E\":{\"F\":2}}}}",
+            "{\"Type\":1,\"Properties\":{\"X\":2}}",
+            "{\"Type\":[\"T\"],\"Properties\":{\"X\":2}}",
+            "{\"Type\":{\"Ref\":\"t\"},\"Properties\":{\"X\":2}}",
+            "{\"Type\":null,\"Properties\":{\"X\":2}}",
+            "{\"Type\":\"T\",\"Metadata\":{\"aws:cdk:path\":1},\"Properties\":{\"X\":2}}",
+            "{\"Type\":\"T\",\"Metadata\":{\"aws:cdk:path\":\"a/b\"},\"Properties\":{\"X\":2}}",
+            "{\"Type\":\"T\",\"Metadata\":\"m\",\"Properties\":{\"X\":2}}",
+            "{\"Type\":\"T\",\"Properties\":{\"X\":{\"Type\":\"Inner\",\"Properties\":{\"X\":2}}}}",
+            "{\"Type\":\"T\"}",
+            "{}",
+            "2",
+            "\"s\"",
+            "[{\"Type\":\"T\",\"Properties\":{\"X\":2}}]",
+            "null",
+        ];
+        let names = ["a", "a/b", "", "Type", "0"];
+        let rules = [
+            "rule r { Resources.*.Properties.X == 1 }\n",
+            "rule r { Resources.*.Properties.D.E.F == 1 }\n",
+            "rule r { Resources.*.Type == \"U\" }\n",
+            "rule r { Resources.* == 1 }\n",
+            "rule r { Resources == 1 }\n",
+            "rule r { Resources.*.Properties.Missing exists }\n",
+            "rule r { Resources.*.Properties.X.Properties.X == 1 }\n",
+            "rule r { Resources.*[*].Properties.X == 1 }\n",
+            "rule r { Resources.*.Properties.X !exists <<msg>> }\n",
+            "rule r { Resources.*.Properties.X in [5, 6] }\n",
+            "T { Properties.X == 1 }\n",
+        ];
+        for res in resources {
+            for name in names {
+                if name != "a" && !(res.starts_with("{\"Type\":\"T\",\"Properties\":{\"X\":2,") || res.starts_with("{\"Properties\"")) {
+                    continue;
+                }
+                let docs = [
+                    format!("{{\"Resources\":{{{}:{}}}}}", serde_json::to_string(name).unwrap(), res),
+                    format!("{{\n \"Resources\": {{\n  {}:\n   {}\n }}\n}}\n", serde_json::to_string(name).unwrap(), res),
+                    format!("{{\"Resources\":{{\"ok\":{{\"Type\":\"T\",\"Properties\":{{\"X\":1,\"D\":{{\"E\":{{\"F\":1}}}}}}}},{}:{}}}}}", serde_json::to_string(name).unwrap(), res),
+                ];
+                for d in &docs {
+                    for r in rules {
+                        for extra in [vec![], vec!["-S", "all", "-v"], vec!["-o", "json"], vec!["-o", "yaml"], vec!["-S", "fail", "-p"]] {
+                            let mut argv = vec!["validate", "-r", "@r.guard", "-d", "@d.json"];
+                            argv.extend(extra.iter());
+                            out.push(cli_case(&argv, json!({"r.guard": r, "d.json": d}), "", "cfn-shapes"));
+                        }
+                    }
+                }
+            }
+        }
+        for d in ["{\"Resources\":[]}", "{\"Resources\":{}}", "{\"Resources\":[{\"Type\":\"T\",\"Properties\":{\"X\":2}}]}", "{\"Resources\":\"x\"}", "{\"Resources\":null}", "{\"Resources\":{\"a\":{\"Type\":\"T\",\"Properties\":{\"X\":2}}},\"Other\":{\"X\":2}}"] {
+            for r in ["rule r { Resources.*.Properties.X == 1 }\n", "rule r { Resources == 1 }\n", "rule r { Resources[*].Properties.X == 1 }\n", "rule r { Other.X == 1 }\n", "rule r { Resources.* exists\n Other.X == 1\n Resources.*.Properties.X == 1 }\n", "rule r { Missing exists }\n"] {
+                for extra in [vec![], vec!["-S", "all", "-v"], vec!["-o", "json"]] {
+                    let mut argv = vec!["validate", "-r", "@r.guard", "-d", "@d.json"];
+                    argv.extend(extra.iter());
+                    out.push(cli_case(&argv, json!({"r.guard": r, "d.json": d}), "", "cfn-shapes"));
+                }
+            }
+        }
+    }
     // --- test files: unknown status words, wrong shapes
     for t in ["- input: {a: 1}\n  expectations:\n    rules:\n      r: MAYBE\n", "- input: {a: 1}\n  expectations:\n    rules:\n      r: pass\n", "- input: {a: 1}\n", "- expectations:\n    rules:\n      r: PASS\n", "input: {a: 1}\n", "[]\n", "- input: ~\n  expectations:\n    rules: {}\n", "- input: [1]\n  expectations:\n    rules:\n      nosuch: PASS\n", "- name: 1\n  input: {a: &x 1, b: *x}\n  expectations:\n    rules:\n      r: PASS\n", "- input: {1: 2}\n  expectations:\n    rules:\n      r: PASS\n", ""] {
         for fmt in [vec![], vec!["-v"], vec!["-o", "json"], vec!["-o", "yaml"], vec!["-o", "junit"]] {
